@@ -192,3 +192,13 @@ def c04b_mixed_class_timestamps_rounded(case, detail):
                 except (OverflowError, ValueError):
                     pass
     return False
+
+
+# ---- C11 ---------------------------------------------------------------------------------------------------
+def c11_il_torn_pair_at_block_boundary(case, detail):
+    """C11: the reader's two reads (one block, then the rest) were served from two different file states and the one
+    entry whose 16 value bytes straddle the block boundary came back with the value of the first state and the timestamp
+    of the second.  Recognised by the oracle's own classification (harness/c11.py direct_il: two reads, value offset + 8
+    == size of the first read, each half written, the pair never) on a case that interleaves the reader (case['il'])."""
+    return (isinstance(case, dict) and bool(case.get('il')) and isinstance(detail, str)
+            and detail.startswith('interleaved-read torn-pair:'))
